@@ -21,7 +21,8 @@ PLAIN_NAMES = ['div', 'p', 'span', 'ul', 'ol', 'li', 'section', 'article', 'head
 PLAIN_ATTRS = ['data-a', 'data-b', 'foo', 'bar', 'x', 'aria-label', 'role', 'lang']
 PLAIN_CLASSES = ['a', 'b', 'item', 'row', 'c-d', 'n$', 'blk', 'x1']
 PLAIN_TEXTS = ['text', 'Hello World', 'a b c', 'é ü', 'x < y & z', 'tab\there', 'item $', '  pad  ', 'line1\nline2', 'l1\r\nl2\nl3',
-               'sep arated', '<b>t</b>', '"q"', 'a\n\nb']
+               'sep\u2028arated', '<b>t</b>', '"q"', 'a\n\nb', '\U0001F600 smile', 'a\U0001F600b\U0001F680', 'e\u0301 combining',
+               '\u4e2d\u6587', 'x\U0001F600\ny']
 
 HTML_SYNTAXES = ['html', 'html', 'html', 'xml', 'xsl', 'jsx', 'js', 'vue', 'svelte', 'xhtml', 'myml']
 INDENT_SYNTAXES = ['pug', 'slim', 'haml']
@@ -61,7 +62,7 @@ class Tree:
             ph = 'v%di%d%s' % (k, ix, letters[j])
             parts.append('${%d:%s}' % (ix, ph))
             self.fields_written += 1
-        glues = [' ', ' x ', '-', ' and ', '']
+        glues = [' ', ' x ', '-', ' and ', '', ' \U0001F600 ']
         if multiline:
             glues += [' x\ny ', '\n', ' a\nb\nc ']
         glue = pick(rng, glues)
@@ -97,7 +98,7 @@ class Tree:
                 elif r < 0.6:
                     node['attrs'].append((a, 'emptyq', None))
                 else:
-                    node['attrs'].append((a, 'value', pick(rng, ['v', 'a b', 'v$', '1'])))
+                    node['attrs'].append((a, 'value', pick(rng, ['v', 'a b', 'v$', '1', '\U0001F600', 'e\u0301x'])))
         if maybe(rng, 0.15):
             node['repeat'] = rng.randint(1, 3)
         r = rng.random()
